@@ -10,7 +10,8 @@ def run(tier, seed, jobs):
     if tier == "quick":
         for fast in (False, True):
             configs.append({"mod": MOD, "cls": "LockModel", "params": {"n": 3, "fast": fast},
-                            "opts": {"pairs": True, "fine": True}})
+                            "opts": {"pairs": True, "fine": True,
+                                     "triples": False if fast else "cancels"}})
     else:
         for fast in (False, True):
             configs.append({"mod": MOD, "cls": "LockModel", "params": {"n": 4, "fast": fast},
